@@ -505,6 +505,53 @@ def render(info, sites, digest):
     return '\n'.join(lines)
 
 
+OBLIGATIONS_LEAN = r'''import Splipy.Generated.C20
+import Splipy.Lemmas.C20State
+
+/-!
+# Source-derived obligations of property C20
+
+GENERATED (verbatim from the template `OBLIGATIONS_LEAN` in harness/translate/state_translate.py;
+never edit, never commit).  `Splipy/Generated/C20.lean` is rewritten by the harness at every run from
+the *current* source of `splipy/`.  This module is built separately
+(`lake build Splipy.Generated.C20Obligations`) and is **not** imported by the library root: a theorem
+below that stops checking is reported by `./check C20` as a broken obligation of the code as it is now.
+
+On the pinned tree `C20_state_restores` and `C20_no_other_writes` are expected to FAIL
+(`state()` has no `try/finally`; `io/g2.py::bounded_surface` assigns
+`state.parametric_absolute_tolerance`).
+-/
+
+open Splipy.StateLang
+
+/-- The whole body of `state()` was inside the translated subset. -/
+theorem C20_state_translated : Generated.C20.stateProg.hasUnknown = false := by decide
+
+/-- There are settings, and the snapshot taken by `state()` covers every one of them. -/
+theorem C20_state_settings_listed :
+    Generated.C20.moduleSettings ≠ [] ∧
+      ∀ k ∈ Generated.C20.moduleSettings, k ∈ Generated.C20.stateNames := by decide
+
+/-- `state()` restores every module-level setting on every exit path (for every keyword
+    argument list, every behaviour of the managed block, normal or raising). -/
+theorem C20_state_restores :
+    RestoresOnEveryExit Generated.C20.moduleSettings Generated.C20.stateProg :=
+  restoresB_sound _ _ (by decide)
+
+/-- No module other than `state.py` assigns an attribute of the `state` module. -/
+theorem C20_no_other_writes : ∀ w ∈ Generated.C20.writeSites, w.1 = "state.py" := by decide
+'''
+
+
+def _write_if_changed(path, txt):
+    old = open(path, encoding='utf-8').read() if os.path.exists(path) else None
+    if old != txt:
+        tmp = path + '.tmp%d' % os.getpid()
+        with open(tmp, 'w', encoding='utf-8') as f:
+            f.write(txt)
+        os.replace(tmp, path)
+
+
 def source_digest(pkg_root):
     h = hashlib.sha256()
     for root, dirs, files in os.walk(pkg_root):
@@ -518,7 +565,8 @@ def source_digest(pkg_root):
 
 
 def regenerate(pkg_root, lean_dir):
-    """Write lean/Splipy/Generated/C20.lean from the sources under pkg_root.  Returns a summary."""
+    """Write lean/Splipy/Generated/C20.lean (from the sources under pkg_root) and the fixed text of
+    lean/Splipy/Generated/C20Obligations.lean.  Returns a summary."""
     spath = os.path.join(pkg_root, STATE_FILE)
     if os.path.exists(spath):
         try:
@@ -535,12 +583,8 @@ def regenerate(pkg_root, lean_dir):
     gdir = os.path.join(lean_dir, 'Splipy', 'Generated')
     os.makedirs(gdir, exist_ok=True)
     path = os.path.join(gdir, 'C20.lean')
-    old = open(path, encoding='utf-8').read() if os.path.exists(path) else None
-    if old != txt:
-        tmp = path + '.tmp%d' % os.getpid()
-        with open(tmp, 'w', encoding='utf-8') as f:
-            f.write(txt)
-        os.replace(tmp, path)
+    _write_if_changed(path, txt)
+    _write_if_changed(os.path.join(gdir, 'C20Obligations.lean'), OBLIGATIONS_LEAN)
     return {'prog': info['prog'], 'state_names': info['state_names'], 'module_settings': info['module_settings'],
             'notes': info['notes'], 'write_sites': [list(s) for s in sites], 'files_scanned': nfiles,
             'digest': digest, 'path': path}
